@@ -76,6 +76,15 @@ void parseAndAddRange(char* buf, CpuSet& set) {
     *sep = '\0';
     int32_t lo = parseIntClamped(buf);
     int32_t hi = parseIntClamped(sep + 1);
+    if (hi < 0) {
+      // An upper bound beyond kMaxReasonableCpuId must not discard the whole range: the ids from lo
+      // up to the representable limit are still denoted.  Saturate it instead (addRange clips).
+      char* end = nullptr;
+      long v = std::strtol(sep + 1, &end, 10);
+      if (end != sep + 1 && v > kMaxReasonableCpuId) {
+        hi = static_cast<int32_t>(kMaxReasonableCpuId);
+      }
+    }
     if (lo >= 0 && hi >= 0) {
       set.addRange(lo, hi + 1);
     }
